@@ -283,6 +283,24 @@ class ThreadSim(object):
             if not lib(dict(args)):
                 self.viol(u["i"], "own-url-does-not-verify", "entity=%s alg=%s" % (u["e"], u["alg"]))
                 continue
+            # ... whichever entity of the process does the verifying (the receiver uses ITS back end, with the
+            # sender's certificate; keys of different sizes live side by side)
+            bad_via = None
+            for oname, (oobj, ospec) in sorted(self.ent.items()):
+                if oname == u["e"]:
+                    continue
+                self.count("oracle.verified-through-other-backend")
+                try:
+                    okv = bool(sigver.verify_redirect_signature(dict(args), oobj.sec.sec_backend, cert))
+                except Exception:
+                    okv = False
+                if not okv:
+                    bad_via = oname
+                    break
+            if bad_via:
+                self.viol(u["i"], "own-url-does-not-verify", "entity=%s alg=%s checked through the back end of %s" % (
+                    u["e"], u["alg"], bad_via))
+                continue
             other_typ = "SAMLResponse" if u["typ"] == "SAMLRequest" else "SAMLRequest"
             muts = []
             a = dict(args); a[u["typ"]] = deflate_and_base64_encode(u["msg"] + "x").decode(); muts.append(("message-changed", a))
@@ -389,6 +407,9 @@ def generate(seed, prop, tier):
             ents.append({"kind": "sp", "name": "sp%d" % i, "key": 3 + i, "enc_keys": [], "tenant": "a"})
         else:
             ents.append({"kind": "idp", "name": "idp%d" % i, "key": i})
+    if r.chance(0.4):
+        # one entity of the process uses a longer RSA key than the fixtures' usual 1024 bits
+        r.pick(ents)["key"] = r.pick([12, 13])
     mode = "seq" if seed % 2 == 0 else "threads"
     n_steps = r.randrange(3, 13 if tier == "quick" else 17)
     evs = []
